@@ -180,6 +180,14 @@ def c12(scn, obs):
             if o['run_arg']:
                 bad.append(('run-arg-not-withdrawn', 'run arguments still in the context at on_finished'))
             phase = 'finished'
+    # an event hook that was entered during the run has RETURNED before end-run is called (a held hook logs its exit)
+    for o in obs:
+        if o.get('k') == 'hook' and o['hook'] in EVENT_HOOKS and o.get('held'):
+            ex = next((x for x in obs[o['i'] + 1:] if x.get('k') == 'gate_exit' and x.get('hook') == o['hook'] and x.get('n') == o['n']), None)
+            er = next((x for x in obs[o['i'] + 1:] if x.get('k') == 'hook' and x['hook'] == 'on_end_run'), None)
+            if er is not None and (ex is None or ex['i'] > er['i']):
+                bad.append(('end-run-before-event-hook-returned', f"on_end_run (run {er.get('run_no')}) was called while the {o['hook']} hook entered before it had not returned"))
+                break
     # a plugin registered / unregistered between hook calls receives exactly the hook calls made
     # while it was registered (compared with what the always-registered plugin saw)
     tags = {o['plugin'] for o in obs if o.get('k') in ('registered',)}
